@@ -41,9 +41,10 @@ def main(argv=None):
             if hasattr(mod, 'thorough'):
                 mod.thorough(ctx)
             if not args.no_selftest and args.repo == '/repo':
-                from . import audit, selftest
+                from . import audit, corpus, selftest
                 extra = selftest.run_for_property(prop, ctx) or {}
                 extra.update(audit.run_for_property(prop))
+                extra.update(corpus.run_for_property(prop))
         rc = ctx.finish(extra)
     except AnalysisError as e:
         print('ANALYSIS-ERROR property={}: {}'.format(prop, e))
